@@ -18,10 +18,17 @@ theorem mapOpt_map {α β : Type} (enc : α → β) (dec : β → Option α) (xs
 
 /-! ## Well-formedness: what Go's types guarantee about a manifest value (not checked by IsValid) -/
 
-def Param.WF (d : Dec) (p : Param) : Prop := d.utf8 p.name = true ∧ p.typ ∈ d.validTypes
+/-- `int(x.Int64())` is the identity on what a Go `int` holds. -/
+theorem int64Of_of_range (i : Int) (h1 : -(2 ^ 63) ≤ i) (h2 : i < 2 ^ 63) : int64Of i = i := by
+  unfold int64Of
+  simp only
+  split <;> split <;> (try split) <;> omega
+
+def Param.WF (d : Dec) (p : Param) : Prop := d.utf8 p.name = true ∧ p.typ ∈ d.validTypes ∧ p.typ < 2 ^ 63
 
 def Method.WF (d : Dec) (m : Method) : Prop :=
-  d.utf8 m.name = true ∧ m.ret ∈ d.validTypes ∧ ∀ p ∈ m.params, p.WF d
+  d.utf8 m.name = true ∧ m.ret ∈ d.validTypes ∧ (∀ p ∈ m.params, p.WF d) ∧
+  m.ret < 2 ^ 63 ∧ -(2 ^ 63) ≤ m.offset ∧ m.offset < 2 ^ 63
 
 def Event.WF (d : Dec) (e : Event) : Prop := d.utf8 e.name = true ∧ ∀ p ∈ e.params, p.WF d
 
@@ -46,20 +53,23 @@ def Man.WF (d : Dec) (m : Man) : Prop :=
 /-! ## Round trips -/
 
 theorem param_roundtrip (d : Dec) (p : Param) (h : p.WF d) : d.param p.toItem = some p := by
-  obtain ⟨h1, h2⟩ := h
-  simp [Param.toItem, Dec.param, Dec.toStr, Dec.toType, h1, h2]
+  obtain ⟨h1, h2, h3⟩ := h
+  have h4 : int64Of (p.typ : Int) = p.typ := int64Of_of_range _ (by omega) (by omega)
+  simp [Param.toItem, Dec.param, Dec.toStr, Dec.toType, tryBytes, tryInt, h1, h2, h4]
 
 theorem params_roundtrip (d : Dec) (ps : List Param) (h : ∀ p ∈ ps, p.WF d) :
     mapOpt d.param (ps.map Param.toItem) = some ps :=
   mapOpt_map _ _ _ (fun p hp => param_roundtrip d p (h p hp))
 
 theorem method_roundtrip (d : Dec) (m : Method) (h : m.WF d) : d.method m.toItem = some m := by
-  obtain ⟨h1, h2, h3⟩ := h
-  simp [Method.toItem, Dec.method, Dec.toStr, Dec.toType, h1, h2, params_roundtrip d m.params h3]
+  obtain ⟨h1, h2, h3, h5, h6, h7⟩ := h
+  have h4 : int64Of (m.ret : Int) = m.ret := int64Of_of_range _ (by omega) (by omega)
+  have h8 : int64Of m.offset = m.offset := int64Of_of_range _ h6 h7
+  simp [Method.toItem, Dec.method, Dec.toStr, Dec.toType, tryBytes, tryInt, tryBool, h1, h2, h4, h8, params_roundtrip d m.params h3]
 
 theorem event_roundtrip (d : Dec) (e : Event) (h : e.WF d) : d.event e.toItem = some e := by
   obtain ⟨h1, h3⟩ := h
-  simp [Event.toItem, Dec.event, Dec.toStr, h1, params_roundtrip d e.params h3]
+  simp [Event.toItem, Dec.event, Dec.toStr, tryBytes, h1, params_roundtrip d e.params h3]
 
 theorem group_roundtrip (d : Dec) (g : Group) (h : g.WF d) : d.group g.toItem = some g := by
   obtain ⟨h1, h2⟩ := h
@@ -73,7 +83,7 @@ theorem desc_roundtrip (d : Dec) (x : Desc) (h : x.WF d) : d.desc x.toItem = som
 
 theorem strs_roundtrip (d : Dec) (ss : List Bytes) (h : ∀ s ∈ ss, d.utf8 s = true) :
     mapOpt d.toStr (ss.map Item.bytes) = some ss :=
-  mapOpt_map _ _ _ (fun s hs => by simp [Dec.toStr, h s hs])
+  mapOpt_map _ _ _ (fun s hs => by simp [Dec.toStr, tryBytes, h s hs])
 
 theorem perm_roundtrip (d : Dec) (p : Perm) (h : p.WF d) : d.perm p.toItem = some p := by
   obtain ⟨c, ms⟩ := p
@@ -94,7 +104,7 @@ theorem man_roundtrip (d : Dec) (compact : Bytes → Bytes) (m : Man) (h : m.WF 
   have hp := mapOpt_map Perm.toItem d.perm m.perms (fun x hx => perm_roundtrip d x (h6 x hx))
   have ht := mapOpt_map Desc.toItem d.desc (m.trusts.value.getD []) (fun x hx => desc_roundtrip d x (h7 x hx))
   cases hw : m.trusts.wildcard <;>
-    simp [Man.toItem, Dec.man, Dec.toStr, h1, hg, hs, hm, he, hp, ht, hw, Man.normalize]
+    simp [Man.toItem, Dec.man, Dec.toStr, tryBytes, h1, hg, hs, hm, he, hp, ht, hw, Man.normalize]
 
 /-! ## sliceHasDups: sort, then compare neighbours -/
 
